@@ -157,10 +157,13 @@ def load_known(prop):
     return out
 
 
-def load_expected(prop):
+def load_expected(prop, tier="quick"):
+    """clauses recorded as producing VCs on the unchanged tree; a tier whose clause set differs from the quick tier's has its own
+    record under '<prop>@<tier>' (the thorough tier of C15 adds composed rewrites)"""
     path = os.path.join(VERIF, "contracts", "EXPECTED_OBLIGATIONS.json")
     if os.path.exists(path):
-        return json.load(open(path)).get(prop, {})
+        allexp = json.load(open(path))
+        return allexp.get(f"{prop}@{tier}", allexp.get(prop, {}))
     return {}
 
 
@@ -254,7 +257,7 @@ def run_property(prop, tier="quick", seed=0, record_expected=False, only=None, j
 
     known = load_known(prop)
     known_open = {k["obligation"]: k for k in known if k.get("status", "finding") == "finding"}
-    expected = load_expected(prop)
+    expected = load_expected(prop, tier)
     all_results = []
     crashes = []
     for o in outs:
@@ -475,7 +478,13 @@ def run_property(prop, tier="quick", seed=0, record_expected=False, only=None, j
             order = {"proved": 0, "known-finding": 1, "unknown": 2, "refuted": 3}
             if prev is None or order.get(st, 3) > order.get(prev, 0):
                 cur[c] = st
-        allexp[prop] = dict(sorted(cur.items()))
+        if tier == "quick":
+            allexp[prop] = dict(sorted(cur.items()))
+        elif set(cur) != set(allexp.get(prop, cur)):
+            allexp[f"{prop}@{tier}"] = dict(sorted(cur.items()))       # this tier produces other clauses than the quick tier
+        else:
+            allexp[prop] = dict(sorted(cur.items()))
+            allexp.pop(f"{prop}@{tier}", None)
         with open(path, "w") as f:
             json.dump(allexp, f, indent=1, sort_keys=True)
 
